@@ -24,12 +24,18 @@ def build_binary():
     return binary, ""
 
 
-def run_command(binary, outcomes, command=("vrps",), timeout=10):
+def run_command(binary, outcomes, command=("vrps",), timeout=10, broken_rrdp_archive=False):
     """Run `routinator <command>` with no TALs and forced run outcomes.
+    With broken_rrdp_archive a zero-length RRDP archive file is planted in the cache, which makes
+    Engine::sanitize fail (unexpected EOF while opening the archive).
     Returns (number of validation runs started, exit code or None on timeout, output tail)."""
     d = tempfile.mkdtemp(prefix="rv-replay-", dir=WORK)
     try:
         os.makedirs(os.path.join(d, "cache"))
+        if broken_rrdp_archive:
+            host = os.path.join(d, "cache", "rrdp", "rrdp.example.net")
+            os.makedirs(host)
+            open(os.path.join(host, "0123abcd"), "wb").close()
         os.makedirs(os.path.join(d, "tals"))
         env = dict(os.environ)
         env["ROUTINATOR_VERIF_RUN_OUTCOMES"] = ",".join(outcomes)
